@@ -175,3 +175,75 @@ def resolve(idx: int, t1: int, t2: int, t3: int, y0: int, y1: int, y2: int) -> b
     if not ok or left:
         return xs.fail(f"'{text}' with package table {tabs} (resolve_packages={do_pkg}, replace_time_conditions={do_time}, resolver yields {ysel[:nocc]}): resolved tree {show(got[1])} differs from the tree of the substituted text '{sub}': {show(want)}", **desc)
     return True
+
+
+# ---------------------------------------------------------------------------------------------------------------------
+# the shipped ContentEvaluationResult-based package resolver: ONE long-lived instance (as registered in the token logic
+# provider) answers from whatever content evaluation result the evaluatable data currently carries
+# ---------------------------------------------------------------------------------------------------------------------
+CER_EXPRS = ("[1P] U [9]", "Muss [2P] O [1P]", "X [1P]", "[5] U ([2P] X [1P0..1])")
+CER_TABLES = ({"1P": "[10]"}, {"1P": "[11] O [12]", "2P": "[13]"}, None, {"2P": "[14] U [15]"}, {"1P": "[16][901]", "2P": "[10]"})
+CER_IDS = (None, "12345678-1234-5678-1234-567812345678", "87654321-4321-8765-4321-876543218765")
+_CER_BODY = [None]
+FIXH = (0, 0)
+
+
+def _cer_provider():
+    from ahbicht.content_evaluation.evaluationdatatypes import EvaluatableData
+
+    return EvaluatableData(body=_CER_BODY[0], edifact_format=env.FMT, edifact_format_version=env.FV)
+
+
+def cer_history(e1: int, ta: int, e2: int, tb: int, with_ids: bool) -> bool:
+    """
+    pre: e1 == FIXH[0] and ta == FIXH[1]
+    pre: 0 <= e1 < len(CER_EXPRS) and 0 <= e2 < len(CER_EXPRS) and 0 <= ta < len(CER_TABLES) and 0 <= tb < len(CER_TABLES)
+    post: _
+    """
+    e1, e2, ta, tb = xs.pick(e1, 0, len(CER_EXPRS)), xs.pick(e2, 0, len(CER_EXPRS)), xs.pick(ta, 0, len(CER_TABLES)), xs.pick(tb, 0, len(CER_TABLES))
+    xs.REAL_LRU = True
+    xs.clear_ahbicht_caches()
+    with xs.nt():
+        import uuid
+
+        from ahbicht.content_evaluation.evaluator_factory import create_content_evaluation_result_based_evaluators
+        from ahbicht.models.content_evaluation_result import ContentEvaluationResult, ContentEvaluationResultSchema
+
+        env.install_parser_proxies()
+        env.configure(list(create_content_evaluation_result_based_evaluators(env.FMT, env.FV)), _cer_provider)
+        schema = ContentEvaluationResultSchema()
+        # the id is optional: the two results carry no id at all, or two different ones
+        idents = [uuid.UUID(CER_IDS[1]), uuid.UUID(CER_IDS[2])] if with_ids else [None, None]
+        bodies = [schema.dump(ContentEvaluationResult(hints={}, format_constraints={}, requirement_constraints={}, packages=(None if t is None else dict(t)), id=i)) for t, i in zip((CER_TABLES[ta], CER_TABLES[tb]), idents)]
+    d = dict(e1=e1, ta=ta, e2=e2, tb=tb, with_ids=with_ids)
+    trail = []
+    for text, t, body in ((CER_EXPRS[e1], CER_TABLES[ta], bodies[0]), (CER_EXPRS[e2], CER_TABLES[tb], bodies[1])):
+        _CER_BODY[0] = body
+        table = dict(t or {})
+        try:
+            got = ("tree", detloop.run(parse_expression_including_unresolved_subexpressions(text, resolve_packages=True, replace_time_conditions=False)))
+        except NotImplementedError as e:
+            got = ("NotImplementedError", str(e))
+        except Exception as e:  # pylint:disable=broad-except
+            got = ("raised", f"{type(e).__name__}: {e}")
+        trail.append((text, t))
+        with xs.nt():
+            missing = [k for k in sorted(set(pkg_occurrences(text))) if k not in table]
+            sub = None if missing else substitute(text, table, True, False)
+        msg = None
+        if missing:
+            if got[0] != "NotImplementedError":
+                with xs.nt():
+                    msg = f"package(s) {missing} are not defined by the current content evaluation result, expected NotImplementedError, got {got[0]}: {show(got[1]) if got[0] == 'tree' else got[1]}"
+        else:
+            want = detloop.run(parse_expression_including_unresolved_subexpressions(sub, resolve_packages=False, replace_time_conditions=False))
+            with xs.nt():
+                if got[0] != "tree":
+                    msg = f"{got[0]} {got[1]}; expected the tree of '{sub}'"
+                elif not same(got[1], want):
+                    msg = f"resolved tree {show(got[1])} differs from the tree of the substituted text '{sub}'"
+        if msg:
+            xs.reached()
+            return xs.fail(f"ContentEvaluationResult-based package resolver, one instance, resolutions (expression, packages of the current result) {trail}: {msg}", **d)
+    xs.reached()
+    return True
